@@ -5,7 +5,7 @@ import datetime as dt
 
 from hypothesis import strategies as st
 
-from ..core import Clause, Dev, eq, expect_raise, true
+from ..core import Clause, Dev, eq, expect_raise, pack_fresh, true
 from ..prop import Property
 
 UTC = dt.timezone.utc
@@ -46,7 +46,7 @@ def check_views(devs, s, days, ms, tag):
     eq(devs, f"{tag}.days", s.ccsds_days, days)
     eq(devs, f"{tag}.ms", s.ms_of_day, ms)
     want = bytes([0x40]) + days.to_bytes(2, "big") + ms.to_bytes(4, "big")
-    eq(devs, f"{tag}.pack", bytes(s.pack()), want)
+    pack_fresh(devs, f"{tag}.pack", s.pack, want)
     d = s.as_datetime()
     true(devs, f"{tag}.datetime_tz", d.tzinfo is not None and d.utcoffset() == dt.timedelta(0), f"as_datetime() not UTC-aware: {d!r}")
     if d.tzinfo is not None:
@@ -173,7 +173,10 @@ def st_add():
     limit = st.tuples(st.integers(65530, 65535), st_ms(), st.integers(0, 6), st.sampled_from([0, 1, 86399]), st.sampled_from([0, 999_999])).map(
         lambda t: {"days": t[0], "ms": t[1], "td": {"days": t[2], "seconds": t[3], "us": t[4]}}
     )
-    return st.one_of(gen, gen, midnight, limit)
+    # history: how the stamp came to be (constructor / decoded / from_datetime-style route), whether its views were read before
+    # the addition (a lazily cached view must not survive it), and an optional second addition chained onto the result
+    hist = st.fixed_dictionaries({"route": st.sampled_from(["ctor", "unpack", "read_from_raw", "from_unix_days"]), "views_before": st.booleans(), "then": st.one_of(st.none(), td)})
+    return st.tuples(st.one_of(gen, gen, midnight, limit), hist).map(lambda t: {**t[0], **t[1]})
 
 
 def check_add(c):
@@ -183,7 +186,19 @@ def check_add(c):
     td_ms = td.days * MS_DAY + td.seconds * 1000 + td.microseconds // 1000
     total = c["days"] * MS_DAY + c["ms"] + td_ms
     wd, wm = total // MS_DAY, total % MS_DAY
-    s = cds.CdsShortTimestamp(c["days"], c["ms"])
+    route = c.get("route", "ctor")
+    raw = bytes([0x40]) + c["days"].to_bytes(2, "big") + c["ms"].to_bytes(4, "big")
+    if route == "unpack":
+        s = cds.CdsShortTimestamp.unpack(raw)
+    elif route == "read_from_raw":
+        s = cds.CdsShortTimestamp.empty()
+        s.read_from_raw(raw)
+    elif route == "from_unix_days":
+        s = cds.CdsShortTimestamp.from_unix_days(c["days"] - DAY_OFFSET, c["ms"])
+    else:
+        s = cds.CdsShortTimestamp(c["days"], c["ms"])
+    if c.get("views_before"):
+        check_views(devs, s, c["days"], c["ms"], "add.views_before")
     if wd > 65535:
         expect_raise(devs, "add.overflow", lambda: s + td, accept=(OverflowError,))
         return devs
@@ -196,6 +211,14 @@ def check_add(c):
     eq(devs, "add.value", (r.ccsds_days, r.ms_of_day), (wd, wm), f"({c['days']},{c['ms']}) + {td!r}")
     if (r.ccsds_days, r.ms_of_day) == (wd, wm):
         check_views(devs, r, wd, wm, "add.views")
+    if c.get("then") is not None and not devs:
+        td2 = dt.timedelta(days=c["then"]["days"], seconds=c["then"]["seconds"], microseconds=c["then"]["us"])
+        total2 = wd * MS_DAY + wm + td2.days * MS_DAY + td2.seconds * 1000 + td2.microseconds // 1000
+        if total2 // MS_DAY <= 65535:
+            r2 = r + td2
+            eq(devs, "add.chained.value", (r2.ccsds_days, r2.ms_of_day), (total2 // MS_DAY, total2 % MS_DAY), f"second addition of {td2!r}")
+            if (r2.ccsds_days, r2.ms_of_day) == (total2 // MS_DAY, total2 % MS_DAY):
+                check_views(devs, r2, total2 // MS_DAY, total2 % MS_DAY, "add.chained.views")
     return devs
 
 
@@ -203,6 +226,10 @@ def _cls_add(c):
     td_ms = c["td"]["days"] * MS_DAY + c["td"]["seconds"] * 1000 + c["td"]["us"] // 1000
     total = c["days"] * MS_DAY + c["ms"] + td_ms
     out = []
+    if c.get("views_before"):
+        out.append("views read before the addition")
+    if c.get("then") is not None:
+        out.append("chained addition")
     if (c["ms"] + td_ms % MS_DAY) >= MS_DAY:
         out.append("carry")
     if total % MS_DAY == 0 and td_ms:
@@ -313,7 +340,7 @@ CLAUSES = [
         check=check_add,
         nontrivial=lambda c: bool(_cls_add(c)),
         classify=_cls_add,
-        required=["carry", "lands on midnight", "overflow", "last day"],
+        required=["carry", "lands on midnight", "overflow", "last day", "views read before the addition", "chained addition"],
         n={"quick": 2500, "thorough": 30000},
     ),
     Clause(
